@@ -207,7 +207,10 @@ HOLES = [
     "{% translate x: «X» %}a{% endtranslate %}z", "{% block «X» %}a{% endblock %}z", "{{ a | append: «X» }}z", "{{ a | «X» }}z",
     "{{ 'a' if «X» else 'b' }}z", "{% ifchanged «X» %}a{% endifchanged %}z",
 ]
-BAD_EXPRS = ["1 ~= 2", "a ==", "== a", "a b c", "", "(1..", "a |", "1 2", "a,,b", "a[", "'unclosed", "a.", "&", "a == == b", "a: b: c", "not", "(a", ")"]
+BAD_EXPRS = ["1 ~= 2", "a ==", "== a", "a b c", "", "(1..", "a |", "1 2", "a,,b", "a[", "'unclosed", "a.", "&", "a == == b", "a: b: c", "not", "(a", ")",
+             # well-formed expressions of the wrong kind for the position (an assignment to something that is not a name, a
+             # bracketed or nested path where an identifier is expected, a trailing question mark)
+             "[x] = 1", "[x.y] = 'z'", "['x'] = 1", "a.b = 1", "a[0] = 1", "x? = 1", "1 = 1", "nil = 1", "[[x]] = 1", "[x]", "a[b[c]].d?", "x?.y", "a-b = 1", "[x][y] = 2"]
 
 
 def valid_variants():
